@@ -38,8 +38,8 @@ Theorem C15_outside_untouched H c H' g : under c (owner g) = false -> (In g (met
 Proof. exact (outside_untouched H c H' g). Qed.
 
 (* the comparison evaluated by the harness *)
-Theorem C15_case_ok_sound H rs obs : case_ok (H, rs, obs) = true -> set_eq obs (views (meta (replace_seq_hier H rs))).
-Proof. exact (case_ok_sound H rs obs). Qed.
+Theorem C15_case_ok_sound H rs obs both : case_ok (H, rs, obs, both) = true -> set_eq obs (views (meta (replace_seq_hier H rs))).
+Proof. exact (case_ok_sound H rs obs both). Qed.
 Theorem C15_views_replace_seq H rs : set_eq (views (replace_seq_meta (meta H) rs)) (views (meta (replace_seq_hier H rs))).
 Proof. exact (views_replace_seq H rs). Qed.
 
